@@ -134,6 +134,12 @@ theorem next_full (r : Reader) (s t : Bytes) (h : r.rest = s ++ t) :
     rw [this, h]
     simp
 
+theorem nextExact_full (r : Reader) (s t : Bytes) (h : r.rest = s ++ t) :
+    nextExact s.length r = (.ok s, r.adv s.length) := by
+  unfold nextExact
+  rw [next_full r s t h]
+  simp
+
 theorem readString_string1 (r : Reader) (tag : Nat) (req : Bool) (old s t : Bytes) (htag : tag < 256)
     (hs : s.length < 256)
     (h : r.rest = writeHead tySTRING1 tag ++ [byte s.length] ++ s ++ t) :
@@ -147,7 +153,7 @@ theorem readString_string1 (r : Reader) (tag : Nat) (req : Bool) (old s t : Byte
     simpa using this
   have hb : (byte s.length).val = s.length := by simp [Nat.mod_eq_of_lt hs]
   simp only [bReadU8_cons _ _ _ hr, hb]
-  have hn := next_full _ s t hr2
+  have hn := nextExact_full _ s t hr2
   simp only [Reader.adv_adv] at hn
   simp +decide [hn, Nat.add_assoc]
 
@@ -164,7 +170,7 @@ theorem readString_string4 (r : Reader) (tag : Nat) (req : Bool) (old s t : Byte
   have hr : (r.adv ((writeHead tySTRING4 tag).length + 4)).rest = s ++ t := by
     have := r.rest_adv (writeHead tySTRING4 tag ++ be 4 s.length) (s ++ t) h'
     simpa using this
-  have hn := next_full _ s t hr
+  have hn := nextExact_full _ s t hr
   simp only [Reader.adv_adv] at hn
   simp +decide [h2, hmod, hn]
 
